@@ -21,6 +21,20 @@ impl EventGen for ReuseElement {
         // of any vars set by this.
         reuse_element.eval_attributes(context)?;
 
+        // The reuse element's attributes become variables for the target, so are
+        // subject to the same length limit as `<var>` values; without this a
+        // recursive reuse such as `<reuse href="#self" a="$a$a"/>` doubles the
+        // value at every level until memory is exhausted.
+        for (key, value) in &reuse_element.attrs {
+            if value.len() > context.config.var_limit as usize {
+                return Err(SvgdxError::VarLimitError(
+                    key.clone(),
+                    value.len(),
+                    context.config.var_limit,
+                ));
+            }
+        }
+
         // The reuse element's attributes are in scope only while instantiating;
         // the scope must be removed again whether or not that succeeds, since
         // a failed element may be retried later.
